@@ -293,8 +293,8 @@ def visit(visitor, obj, attr, cff):
             else:
                 setattr(topDict, attr, visitor.scale(value))
 
-        for i in range(6):
-            topDict.FontMatrix[i] /= visitor.scaleFactor
+        # not in place: the list may be the class-level default shared by all fonts
+        topDict.FontMatrix = [v / visitor.scaleFactor for v in topDict.FontMatrix]
 
         for private in privates:
             for attr in (
